@@ -373,6 +373,10 @@ mut('c19-split-python-time-seed', ['C19'], 'split shuffle reseeds from the clock
 mut('c19-id-ordering', ['C19'], 'parameters() sorted by object address', [(M, "        return unique_params", "        return sorted(unique_params, key=lambda p: id(p))")], rules=['C19.NOADDR'])
 mut('c19-parameters-via-set', ['C19', 'C12'], 'parameters() de-duplicated through a set of tensors', [(M, "        return unique_params", "        return list(set(unique_params))")], rules=['C19.ORDER', 'C12'], accept_incomplete=True)
 
+mut('c02-bn-dvar-unscaled', ['C02'], 'batch_norm_backward: the variance term is built from the raw upstream gradient instead of the gamma-scaled one (wrong whenever gamma != 1)',
+    [(K, "dL_dvar = (-0.5 * dL_dxi_hat * (x - mean))", "dL_dvar = (-0.5 * grad * (x - mean))")], rules=['C02.HOMOG'])
+mut('c01-matmul-grad-a-wrong-operand', ['C01', 'C02'], 'matmul_backward: grad_a is computed with a instead of b (shape-compatible for square operands)',
+    [(K, "grad_a = grad @ np.swapaxes(b, -2, -1)", "grad_a = grad @ np.swapaxes(a, -2, -1)")], rules=['C01.HOMOG', 'C02.HOMOG', 'C01.DEP', 'C02.DEP', 'C01', 'C02'])
 # ------------------------------------------------------------------------------------------------ C20
 mut('c20-step-before-backward', ['C20'], 'optimizer.step() before backward()', [(TR, "            train_loss.backward()\n            self.optimizer.step()", "            self.optimizer.step()\n            train_loss.backward()")], rules=['C20.STEP'])
 mut('c20-zero-grad-after-backward', ['C20'], 'zero_grad() after backward() (every step uses zero gradients)', [(TR, "            self.optimizer.zero_grad()\n            train_loss.backward()", "            train_loss.backward()\n            self.optimizer.zero_grad()")], rules=['C20.STEP'])
